@@ -26,6 +26,7 @@ FIELD_TYPES = {
     "Schedule.instance": REF("JobShopInstance"),
     "Schedule._schedule": LIST(LIST(REF("ScheduledOperation"))),
     "Schedule.metadata": ANY,
+    "BaseSolver.$dummy": ANY,
     "JobShopInstance.jobs": LIST(LIST(REF("Operation"))),
     "JobShopInstance.name": ANY,
     "JobShopInstance.metadata": ANY,
